@@ -25,6 +25,7 @@ PROGRAMS = {
     "ir": "fe001304",
     "clr_halt": "ccfc00de1306",                    # MV (FC),0 ; HALT ; JR start   (a polled, masked request is acknowledged, then the CPU halts)
     "lcd": "083fa800a00008b9a800a000130e",           # MV A,3F ; MV [0A000],A ; MV A,B9 ; MV [0A000],A ; JR start   (display on, page set, VRAM untouched)
+    "wait_scaled": "0b0300ef1306",                  # the WAIT loop on a machine built with timer_scale=0.25 (Python constructor switch; C16 only)
     "zflag": "08017c001306",                         # MV A,1 ; DEC A ; JR start   (Z is set whenever an interrupt arrives)
     "romw": "085aa8000c0ca80010007c00130c",       # MV A,5A ; MV [C0C00],A ; MV [01000],A ; ... stores into the ROM window and the read-only low range
     "rst": "000000ff1306",                           # NOP NOP NOP RESET (-> reset vector -> start)   (timers must keep their boundaries)
@@ -307,6 +308,8 @@ def explore(impl, h, cfg, cname, depth, max_dev, vb: VB, roots_len: int = 5):
 
 def make_cfg(p, hname, imr, timer, kol=0xFF):
     cfg = M.default_cfg(bytes.fromhex(PROGRAMS[p]), bytes.fromhex(HANDLERS[hname]), imr=imr, timer=timer, kb_press=1, kol=kol)
+    if p == "wait_scaled":
+        cfg["timer_scale"] = 0.25
     if p == "xram":
         cfg["expand_ram"] = (0x8000, 0x50000)       # PCE500Emulator.expand_ram: a data-backed RAM overlay 0x50000-0x57FFF
     return cfg
@@ -332,7 +335,7 @@ def _shard(args):
 
 
 def combos_for(impl, thorough, seed):
-    progs = [p for p in PROGRAMS if p not in ("xram", "rst", "romw")]      # xram only adds a RAM expansion overlay for C16
+    progs = [p for p in PROGRAMS if p not in ("xram", "rst", "romw", "wait_scaled")]      # xram only adds a RAM expansion overlay for C16
     hands = list(HANDLERS)
     if impl == "rust":
         imrs = IMRS if thorough else [0x00, 0x81, 0x84, 0x88, 0x8F, 0x0F]
